@@ -21,6 +21,16 @@ const (
 	c15RelNotBelow // expr  <=>  len(C) <= I   (out of range when true)
 	c15RelAbove    // expr  <=>  len(C) <  I   (implies out of range; false when in range)
 	c15RelAtMost   // expr  <=>  I <= len(C)   (implied by in range; says nothing when true)
+	c15RelNeg      // expr  <=>  I <  0        (lower bound violated)
+	c15RelNonNeg   // expr  <=>  0 <= I        (lower bound holds)
+)
+
+// Abstract positions of an index relative to its container: "in range" means 0 <= I < len(C). Update.Index is a
+// signed int read from xml/json, so out of range has two sides.
+const (
+	c15In   = +1 // 0 <= I < len(C)
+	c15High = -1 // I >= len(C) (and I >= 0)
+	c15Neg  = -2 // I < 0
 )
 
 type c15RangeTest struct {
@@ -37,8 +47,9 @@ type c15RangeTest struct {
 type c15Operand struct {
 	env      *c15Env
 	expr     ast.Expr // index operand; or the argument of len for kinds 'L' and 'M'
-	kind     byte     // 'I' other expression, 'L' len(C), 'M' len(C)-1
-	unsigned bool     // an unsigned conversion was passed on the way
+	kind     byte     // 'I' other expression, 'L' len(C), 'M' len(C)-1, 'K' integer constant k
+	k        int64
+	unsigned bool // an unsigned conversion was passed on the way
 }
 
 func c15IsUnsigned(t types.Type) bool {
@@ -78,6 +89,10 @@ func (w *c15World) rangeOperand(env *c15Env, e ast.Expr, depth int) c15Operand {
 		op.kind, op.expr = 'L', la
 		return op
 	}
+	if k, ok := constInt(w.info, op.expr); ok {
+		op.kind, op.k = 'K', k
+		return op
+	}
 	if be, ok := op.expr.(*ast.BinaryExpr); ok && be.Op == token.SUB && depth < 3 {
 		if k, ok := constInt(w.info, be.Y); ok && k == 1 {
 			inner := w.rangeOperand(op.env, be.X, depth+1)
@@ -112,6 +127,10 @@ func (w *c15World) rangeTest(env *c15Env, e ast.Expr) *c15RangeTest {
 		return mk(c15RelAbove, b, a)
 	case a.kind == 'I' && b.kind == 'L' && op == token.LEQ:
 		return mk(c15RelAtMost, a, b)
+	case a.kind == 'I' && b.kind == 'K' && !unsigned && ((op == token.LSS && b.k == 0) || (op == token.LEQ && b.k == -1)): // I < 0
+		return &c15RangeTest{rel: c15RelNeg, ienv: a.env, I: a.expr}
+	case a.kind == 'K' && b.kind == 'I' && !unsigned && ((op == token.LEQ && a.k == 0) || (op == token.LSS && a.k == -1)): // 0 <= I
+		return &c15RangeTest{rel: c15RelNonNeg, ienv: b.env, I: b.expr}
 	case a.kind == 'I' && b.kind == 'M' && op == token.LEQ: // I <= len-1
 		t := mk(c15RelBelow, a, b)
 		if unsigned {
@@ -137,27 +156,52 @@ func (w *c15World) rangeTestAbout(t *c15RangeTest, ip, cp *c15Path) bool {
 	if ip == nil {
 		return true
 	}
+	if t.rel == c15RelNeg || t.rel == c15RelNonNeg {
+		return p.eq(ip) // a test of the lower bound involves no container
+	}
 	return p.eq(ip) && w.pathOf(t.cenv, t.C, false).eq(cp)
 }
 
-// value gives the truth value of the test under "the index is in range" (rng > 0) / "out of range" (rng < 0).
+// value gives the truth value of the test for an index that is in range (c15In), at or beyond the length (c15High)
+// or negative (c15Neg). A negative index converted to an unsigned type is larger than every length, so the unsigned
+// spellings of the upper test decide both sides at once.
 func (t *c15RangeTest) value(rng int) c15Tri {
+	neg := rng == c15Neg
 	switch t.rel {
-	case c15RelBelow:
-		return c15Of(rng > 0)
-	case c15RelNotBelow:
-		return c15Of(rng < 0)
-	case c15RelAbove:
-		if rng > 0 {
+	case c15RelBelow: // I < len
+		if neg {
+			return c15Of(!t.unsigned)
+		}
+		return c15Of(rng == c15In)
+	case c15RelNotBelow: // len <= I
+		if neg {
+			return c15Of(t.unsigned)
+		}
+		return c15Of(rng == c15High)
+	case c15RelAbove: // len < I
+		if neg {
+			return c15Of(t.unsigned)
+		}
+		if rng == c15In {
 			return c15F
 		}
-	case c15RelAtMost:
-		if rng > 0 {
+	case c15RelAtMost: // I <= len
+		if neg {
+			return c15Of(!t.unsigned)
+		}
+		if rng == c15In {
 			return c15T
 		}
+	case c15RelNeg:
+		return c15Of(neg)
+	case c15RelNonNeg:
+		return c15Of(!neg)
 	}
 	return c15U
 }
+
+// twoSided: the test, when it says "in range", also excludes negative indexes (unsigned comparison).
+func (t *c15RangeTest) twoSided() bool { return t.unsigned }
 
 // predicateExpr returns E for a function whose body is `return E`, possibly preceded by pure definitions of locals
 // (`last := n - 1; return i <= last`): E is then evaluated with those locals looked through. Anything else: nil.
